@@ -8,6 +8,7 @@ from .. import fields, paths
 from ..core import FUNC, call_attr, calls_in, const, dotted, is_const, kwarg, norm, slice_parts, text, walk_local
 
 EXPLANATION = [
+    "C10.bearer-dispatch: both consumers of an ATT bearer (Device.on_gatt_pdu, the sink installed by Client.connect_eatt) dispatch on the opcode parity and hand client->server PDUs to the server's on_gatt_pdu_bytes.",
     'C10.bearer-kind: att.is_enhanced_bearer returns exactly isinstance(bearer, EnhancedBearer) (the narrowing all bearer branches rely on).',
     "C10.total-mappers: every display mapper of an ATT / HCI field is total on the field's values (no indexing with the value, no fixed-format unpack): str() of a PDU, evaluated for the debug log before dispatch, cannot raise.",
     "C10.entry-length-octet: the Read By Type / Read By Group Type handlers cut each entry's value to min(<MTU bound>, 253 / 251): the entry length fits its one-octet field at every ATT_MTU.",
@@ -718,7 +719,26 @@ def bearer_kind(ctx):
     R.check(ok, rule, 'bumble.att.is_enhanced_bearer', 'a plain isinstance test', f'is_enhanced_bearer returns `{norm(rets[0])[:70] if rets else ""}`: an enhanced bearer for which the extra condition is false (a bearer on an application-chosen PSM) is treated as a Connection - `bearer.handle` raises before dispatch and no request on that bearer is answered', p.loc(fn))
 
 
+def bearer_dispatch(ctx):
+    """An ATT bearer carries both directions: wherever a consumer is attached to one (Device.on_gatt_pdu for the fixed
+    channel, the sink Client.connect_eatt installs on the channels it opens), client->server PDUs (even opcode) are handed
+    to the GATT server\'s on_gatt_pdu_bytes - a consumer that gives everything to the client leaves the peer\'s requests
+    unanswered."""
+    R, p = ctx.r, ctx.p
+    rule = 'C10.bearer-dispatch'
+    sites = {'bumble.device.Device.on_gatt_pdu': p.find('bumble.device.Device.on_gatt_pdu'), 'bumble.gatt_client.Client.connect_eatt': p.find('bumble.gatt_client.Client.connect_eatt')}
+    for q, fn in sites.items():
+        if fn is None:
+            R.bad(rule, q, 'anchor missing')
+            continue
+        to_client = [c for c in ast.walk(fn) if isinstance(c, ast.Call) and call_attr(c) == 'on_gatt_pdu' and 'client' in norm(c.func)]
+        to_server = [c for c in ast.walk(fn) if isinstance(c, ast.Call) and call_attr(c) == 'on_gatt_pdu_bytes']
+        parity = [t for t in ast.walk(fn) if isinstance(t, ast.BinOp) and isinstance(t.op, ast.BitAnd) and is_const(t.right) and const(t.right) == 1 and 'pdu[0]' in norm(t.left)]
+        R.check(bool(to_client) and bool(to_server) and bool(parity), rule, q, 'dispatches on the opcode parity: requests to the server, responses to the client', f'{q.rsplit(".", 1)[-1]} hands every PDU of the bearer to the client: a request the peer sends on it is logged as an unexpected response and never answered', p.loc(fn))
+
+
 RULES = [
+    ('C10.bearer-dispatch', bearer_dispatch),
     ('C10.bearer-kind', bearer_kind),
     ('C10.total-mappers', total_mappers_rule),
     ('C10.entry-length-octet', entry_length_octet),
